@@ -285,7 +285,71 @@ fn emit_t(ctx: &mut GenCtx, tag: &str, ts: &[T]) {
     }
     ctx.stats.bump(&format!("T.{}", tag));
     ctx.stats.add("T.pairs", (ts.len() * ts.len()) as u64);
+    count_values(ctx, ts);
     ctx.emit(&s);
+}
+
+/// distribution counters over the values of a request (which regions of the value space are reached)
+fn count_values(ctx: &mut GenCtx, ts: &[T]) {
+    let mut edge_naive = false;
+    let mut zoned = false;
+    for t in ts {
+        match t {
+            T::Lit(l, d) if d.ends_with("#dateTime") => {
+                let neg = l.starts_with('-');
+                let body = l.trim_start_matches('-');
+                let year: i64 = body.split('-').next().and_then(|y| y.parse().ok()).unwrap_or(0);
+                let tz = l.ends_with('Z') || l.rfind(['+', '-']).map(|i| i > l.find('T').unwrap_or(usize::MAX)).unwrap_or(false);
+                ctx.stats.bump(if tz { "val.dateTime.zoned" } else { "val.dateTime.naive" });
+                if year > 12345 || (neg && year > 2) {
+                    ctx.stats.bump("val.dateTime.year_beyond_tests");
+                }
+                if (neg && year == 262143) || (!neg && year == 262142) {
+                    ctx.stats.bump("val.dateTime.range_end_year");
+                    edge_naive |= !tz;
+                }
+                if year > 262143 {
+                    ctx.stats.bump("val.dateTime.year_out_of_range");
+                }
+                zoned |= tz;
+            }
+            T::Triple(_) => ctx.stats.bump("val.quoted_triple"),
+            _ => {}
+        }
+    }
+    if edge_naive && zoned {
+        ctx.stats.bump("req.range_end_naive_with_zoned");
+    }
+}
+
+/// a non-timezoned dateTime in the first / last year of chrono's range (its comparison with a timezoned one may panic)
+fn range_end_naive(t: &T) -> bool {
+    match t {
+        T::Lit(l, d) if d.ends_with("#dateTime") => {
+            (l.starts_with("-262143-") || l.starts_with("262142-")) && !(l.ends_with('Z') || l[l.find('T').unwrap_or(0)..].contains(['+', '-']))
+        }
+        _ => false,
+    }
+}
+
+/// pools inside ONE comparison class each (`OneClass` of Props/C14.lean): the comparator is a total preorder there
+fn clean_pools(tab: &Table) -> Vec<(&'static str, Vec<T>)> {
+    let lex = |t: &T| match t {
+        T::Lit(l, _) => l.clone(),
+        _ => String::new(),
+    };
+    let has_tz = |l: &str| l.ends_with('Z') || l.rfind(['+', '-']).map(|i| i > l.find('T').unwrap_or(usize::MAX)).unwrap_or(false);
+    let dts = tab.exact(&["dateTime", "dateTime.edge"]);
+    vec![
+        ("exact", tab.exact(&["integer", "derived", "decimal"])),
+        ("float", tab.exact(&["float", "double"]).into_iter().filter(|t| !lex(t).to_lowercase().contains("nan")).collect()),
+        ("term", tab.exact(&[
+            "string", "langstring", "unknown", "iri", "bnode", "boolean", "triple", "integer.ill", "derived.ill", "decimal.ill",
+            "float.ill", "double.ill", "boolean.ill", "dateTime.ill", "dateTime.edgeill",
+        ])),
+        ("naive", dts.iter().filter(|t| !has_tz(&lex(t))).cloned().collect()),
+        ("zoned", dts.iter().filter(|t| has_tz(&lex(t))).cloned().collect()),
+    ]
 }
 
 pub fn generate(ctx: &mut GenCtx) {
@@ -305,11 +369,18 @@ pub fn generate(ctx: &mut GenCtx) {
     emit_t(ctx, "corpus", &[xsd("99999999999-01-01T00:00:00", "dateTime"), xsd("2024-01-01T00:00:00", "dateTime")]);
     emit_t(ctx, "corpus", &[xsd("2147483648-01-01T00:00:00Z", "dateTime"), xsd("2147483647-01-01T00:00:00Z", "dateTime"), i("1")]);
     emit_t(ctx, "corpus", &[xsd("\u{0662}\u{0660}\u{0662}\u{0664}-01-01T00:00:00", "dateTime"), xsd("2024-01-01T00:00:00", "dateTime")]);
+    // the ends of chrono's range: `naive_to_fixed(d, ±14)` was `unreachable!()` when d∓14:00 is not representable (fixed in
+    // c9027e0; a regression shows up as FAIL.panic), next to the nearest values that were fine
+    let d = |l: &str| xsd(l, "dateTime");
+    emit_t(ctx, "corpus", &[d("-262143-01-01T00:00:00"), d("2024-01-01T00:00:00Z")]);
+    emit_t(ctx, "corpus", &[d("262142-12-31T23:00:00"), d("262142-12-31T23:30:00Z")]);
+    emit_t(ctx, "corpus", &[d("-262143-01-01T14:00:00"), d("2024-01-01T00:00:00Z"), d("262142-12-31T09:59:59")]);
+    emit_t(ctx, "corpus", &[d("262142-12-31T10:00:00"), d("2024-01-01T00:00:00Z"), d("262142-12-31T23:59:59Z")]);
     // decimals written with an exponent (outside the model's domain when next to a float/double)
     emit_t(ctx, "corpus", &[xsd("1e3", "decimal"), xsd("1000", "double"), xsd("999", "integer")]);
     emit_t(ctx, "corpus", &[xsd("1e3", "decimal"), xsd("1000", "integer"), xsd("999.5", "decimal")]);
     // 1. per class tables (every pair inside a class, and each class against a few outsiders)
-    for c in ["integer", "derived", "decimal", "float", "double", "boolean", "string", "langstring", "dateTime", "unknown", "iri", "bnode"] {
+    for c in ["integer", "derived", "decimal", "float", "double", "boolean", "string", "langstring", "dateTime", "unknown", "iri", "bnode", "triple"] {
         let mut ts = tab.class(c);
         for _ in 0..4 {
             ts.push(tab.v[ctx.rng.below(tab.v.len())].1.clone());
@@ -330,6 +401,11 @@ pub fn generate(ctx: &mut GenCtx) {
             }
         }
         emit_t(ctx, "mixed", &ts);
+    }
+    // dateTimes over the whole range of chrono (and just beyond), with and without timezone
+    for _ in 0..(if thorough { 60 } else { 8 }) {
+        let ts: Vec<T> = (0..12).map(|_| random_date_time(&mut ctx.rng)).collect();
+        emit_t(ctx, "dtrange", &ts);
     }
     // numerics only (cross-type promotion)
     let nums: Vec<T> = ["integer", "derived", "decimal", "float", "double"].iter().flat_map(|c| tab.class(c)).collect();
@@ -355,7 +431,8 @@ pub fn generate(ctx: &mut GenCtx) {
     // 4. multi-key rows with unbound cells
     for _ in 0..(if thorough { 3000 } else { 300 }) {
         let nkeys = ctx.rng.range(1, 3);
-        let nrows = 2;
+        // three rows: also sorted together in all six input orders
+        let nrows = if ctx.rng.chance(1, 4) { 3 } else { 2 };
         let dirs: String = (0..nkeys).map(|_| if ctx.rng.chance(1, 2) { 'A' } else { 'D' }).collect();
         // small column pools so that ties on the leading keys are frequent
         let pools: Vec<Vec<T>> = (0..nkeys)
@@ -375,6 +452,7 @@ pub fn generate(ctx: &mut GenCtx) {
             }
         }
         ctx.stats.bump(&format!("K.keys{}", nkeys));
+        ctx.stats.bump(&format!("K.rows{}", nrows));
         if unbound > 0 {
             ctx.stats.bump("K.with_unbound");
         }
@@ -406,11 +484,98 @@ pub fn generate(ctx: &mut GenCtx) {
         let pool: Vec<T> = if homogeneous { tab.class(*ctx.rng.pick(&["integer", "string", "iri", "double"])) } else { all.clone() };
         let mut s = format!("S {} {}", if ctx.rng.chance(1, 2) { "A" } else { "D" }, n);
         for _ in 0..n {
-            let t = if !homogeneous && ctx.rng.chance(1, 3) { random_value(&mut ctx.rng, &tab) } else { ctx.rng.pick(&pool).clone() };
+            let mut t = if !homogeneous && ctx.rng.chance(1, 3) { random_value(&mut ctx.rng, &tab) } else { ctx.rng.pick(&pool).clone() };
+            // keep these sorts clear of the range-end panic (it would end the sort before anything else is observed);
+            // S.dtrange below is where it is looked for
+            while range_end_naive(&t) {
+                t = ctx.rng.pick(&pool).clone();
+            }
             s.push(' ');
             s.push_str(&t.render());
         }
         ctx.stats.bump(if homogeneous { "S.homogeneous" } else { "S.mixed" });
+        ctx.emit(&s);
+    }
+    // 5b. big sorts of dateTimes over the whole range, with and without timezone
+    for _ in 0..(if thorough { 12 } else { 2 }) {
+        let n = ctx.rng.range(21, 60);
+        let mut s = format!("S {} {}", if ctx.rng.chance(1, 2) { "A" } else { "D" }, n);
+        for _ in 0..n {
+            s.push(' ');
+            s.push_str(&random_date_time(&mut ctx.rng).render());
+        }
+        ctx.stats.bump("S.dtrange");
+        ctx.emit(&s);
+    }
+    // 5c. clean big sorts: all values inside one comparison class, where the comparator is proved to be a total preorder
+    // (no known defect can explain a mis-ordered output here)
+    let pools = clean_pools(&tab);
+    for k in 0..(if thorough { 30 } else { 5 }) {
+        let (name, pool) = &pools[k % pools.len()];
+        let n = ctx.rng.range(30, 200);
+        let mut s = format!("S {} {}", if ctx.rng.chance(1, 2) { "A" } else { "D" }, n);
+        for _ in 0..n {
+            s.push(' ');
+            s.push_str(&ctx.rng.pick(pool).render());
+        }
+        ctx.stats.bump(&format!("S.clean.{}", name));
+        ctx.emit(&s);
+    }
+    // 6. several keys, many rows, unbound cells, ASC/DESC, LIMIT/OFFSET; every column inside one comparison class
+    for _ in 0..(if thorough { 60 } else { 8 }) {
+        let nkeys = ctx.rng.range(2, 3);
+        let nrows = ctx.rng.range(21, if thorough { 90 } else { 50 });
+        let dirs: String = (0..nkeys).map(|_| if ctx.rng.chance(1, 2) { 'A' } else { 'D' }).collect();
+        // few distinct values per column: ties on the leading keys are the rule
+        let cols: Vec<Vec<T>> = (0..nkeys)
+            .map(|_| {
+                let pool = &pools[ctx.rng.below(pools.len())].1;
+                let k = ctx.rng.range(2, 6);
+                (0..k).map(|_| ctx.rng.pick(pool).clone()).collect()
+            })
+            .collect();
+        let slice = if ctx.rng.chance(1, 2) { format!("{} {}", ctx.rng.below(nrows + 3), ctx.rng.below(nrows / 2 + 1)) } else { "- 0".to_string() };
+        let mut s = format!("M {} {} {} {}", dirs, nrows, nkeys, slice);
+        for _ in 0..nrows {
+            for col in cols.iter() {
+                if ctx.rng.chance(1, 6) {
+                    s.push_str(" -");
+                } else {
+                    s.push(' ');
+                    s.push_str(&ctx.rng.pick(col).render());
+                }
+            }
+        }
+        ctx.stats.bump(&format!("M.keys{}", nkeys));
+        ctx.stats.bump(if slice.starts_with('-') { "M.full" } else { "M.limit_offset" });
+        if dirs.contains('D') {
+            ctx.stats.bump("M.with_desc");
+        }
+        ctx.emit(&s);
+    }
+    // 7. keys that are not plain variables: `?k + 0` (EvalResult::Value), BIND(?k * 1 AS ?b) (ResultTerm with a pre-computed
+    // value and a generated lexical form), STR(?k)
+    for k in 0..(if thorough { 240 } else { 36 }) {
+        let mode = ["P", "B", "S"][k % 3];
+        let n = ctx.rng.range(4, 10);
+        let ts: Vec<T> = (0..n)
+            .map(|_| {
+                if mode != "S" && ctx.rng.chance(2, 3) {
+                    if ctx.rng.chance(2, 3) { ctx.rng.pick(&nums).clone() } else { random_value(&mut ctx.rng, &tab) }
+                } else if ctx.rng.chance(2, 3) {
+                    ctx.rng.pick(&all).clone()
+                } else {
+                    random_value(&mut ctx.rng, &tab)
+                }
+            })
+            .collect();
+        let mut s = format!("X {} {}", mode, n);
+        for t in &ts {
+            s.push(' ');
+            s.push_str(&t.render());
+        }
+        ctx.stats.bump(&format!("X.{}", mode));
+        ctx.stats.add("X.pairs", (n * n) as u64);
         ctx.emit(&s);
     }
 }
